@@ -26,6 +26,17 @@ def run(ctx):
     ctx.floor("R1", "lease write", len(inserts), 1)
     if len(inserts) == 1:
         _r1(ctx, inserts[0])
+        # the acknowledged lease is the row on disk: the write replaces whatever row the address had, client id included
+        W = inserts[0]
+        conflict = W.stmt["conflict"]
+        full = conflict == "REPLACE"
+        if conflict == "UPSERT" and W.stmt.get("upsert"):
+            up = W.stmt["upsert"]
+            full = up["target"] == ["address"] and {"clientid", "start", "expiry"} <= {c for c, _ in up["set"]} and up.get("where") is None
+        ctx.check(full, "R9", "recorded-row-is-the-acknowledged-lease" if full else "recorded-row-may-keep-old-fields:%s" % conflict,
+                  ctx.where(W.body, W.term["sp"]),
+                  "what is acknowledged must be what is stored: on a conflict the write has to overwrite client id, start and expiry "
+                  "unconditionally (INSERT OR REPLACE or a complete upsert)")
     # ---- R2 / R6: SQL kinds
     n = 0
     for s in M.sites:
